@@ -61,6 +61,10 @@ class Ctx:
         if not os.path.exists(exe) or os.path.getmtime(exe) < os.path.getmtime(os.path.join(src, 'main.go')):
             os.makedirs(os.path.dirname(exe), exist_ok=True)
             subprocess.run(['go', 'build', '-o', exe, '.'], cwd=src, env=GOENV, check=True)
+        hexe = os.path.join(VERIF, 'bin', 'gohelper')
+        hsrc = os.path.join(VERIF, 'engine', 'gohelper')
+        if not os.path.exists(hexe) or os.path.getmtime(hexe) < os.path.getmtime(os.path.join(hsrc, 'main.go')):
+            subprocess.run(['go', 'build', '-o', hexe, '.'], cwd=hsrc, env=GOENV, check=True)
         return exe
 
     def overlay(self, files, native=False, name='overlay'):
@@ -262,24 +266,36 @@ def _init_worker():
 
 
 def run_jobs(jobs, procs=NCPU):
-    """run harness jobs in a process pool; Fork() requests expand into sub-jobs"""
+    """run harness jobs in a process pool; Fork() requests expand into sub-jobs that are scheduled at once"""
     results = []
     if not jobs:
         return results
-    pending = list(jobs)
-    with multiprocessing.get_context('fork').Pool(min(procs, max(1, len(pending))), _init_worker, maxtasksperchild=1) as pool:
-        while pending:
-            batch, pending = pending, []
-            for job, r in zip(batch, pool.map(run_case, batch, chunksize=1)):
-                if r.get('needfork'):
-                    name, n = r['needfork']
-                    for v in range(n):
-                        j2 = dict(job)
-                        j2['forks'] = dict(job.get('forks') or {})
-                        j2['forks'][name] = v
-                        pending.append(j2)
-                else:
-                    results.append(r)
+    import queue
+    done = queue.Queue()
+    outstanding = 0
+    with multiprocessing.get_context('fork').Pool(procs, _init_worker, maxtasksperchild=1) as pool:
+        def submit(job):
+            pool.apply_async(run_case, (job,), callback=lambda r, job=job: done.put((job, r)),
+                             error_callback=lambda e, job=job: done.put((job, {'entry': job['entry'], 'forks': job.get('forks') or {},
+                                                                               'obligations': [], 'covers': [], 'needfork': None,
+                                                                               'error': 'worker failed: %r' % (e,)})))
+        for j in jobs:
+            submit(j)
+            outstanding += 1
+        while outstanding:
+            job, r = done.get()
+            outstanding -= 1
+            if r.get('needfork'):
+                name, n = r['needfork']
+                for v in range(n):
+                    j2 = dict(job)
+                    j2['forks'] = dict(job.get('forks') or {})
+                    j2['forks'][name] = v
+                    submit(j2)
+                    outstanding += 1
+            else:
+                results.append(r)
+    results.sort(key=lambda r: (r['entry'], json.dumps(r['forks'], sort_keys=True)))
     return results
 
 
